@@ -137,6 +137,34 @@ pub fn prefix_from_sporadic(period: u64, jitter: u64, horizon: u64) -> ArrDesc {
     ArrDesc::Prefix(horizon, steps)
 }
 
+/// Two or three component sources (each of a fraction of the rate; now and then one that never
+/// releases anything), handed over as a Vec, a boxed slice or nested `sum_of`.
+fn superposition(rng: &mut Rng, period: u64) -> ArrDesc {
+    let n = if rng.chance(1, 3) { 3 } else { 2 };
+    let mut parts = Vec::new();
+    for _ in 0..n {
+        if rng.chance(1, 8) {
+            parts.push(ArrDesc::Never);
+        } else {
+            let pb = period * n as u64 + rng.below(period + 1);
+            let kb = any_leaf(rng);
+            parts.push(leaf_arrival(rng, pb, kb));
+        }
+    }
+    match rng.below(3) {
+        0 => ArrDesc::Vec(parts),
+        1 => ArrDesc::Slice(parts),
+        _ => {
+            let mut it = parts.into_iter();
+            let mut acc = it.next().unwrap();
+            for p in it {
+                acc = ArrDesc::SumOf(Box::new(acc), Box::new(p));
+            }
+            acc
+        }
+    }
+}
+
 pub fn random_arrival(rng: &mut Rng, period: u64, sw: &ArrSwarm) -> ArrDesc {
     let kind = rng.weighted(&sw.weights);
     match kind {
@@ -151,8 +179,13 @@ pub fn random_arrival(rng: &mut Rng, period: u64, sw: &ArrSwarm) -> ArrDesc {
             prefix_from_sporadic(period, jitter, horizon.max(1))
         }
         5 => {
-            let kk = any_leaf(rng);
-            let inner = leaf_arrival(rng, period, kk);
+            let inner = if rng.chance(1, 4) {
+                // a jittered clone of a superposition (possibly with a silent component)
+                superposition(rng, period)
+            } else {
+                let kk = any_leaf(rng);
+                leaf_arrival(rng, period, kk)
+            };
             let j = rng.range(0, period);
             let once = ArrDesc::Jittered(Box::new(inner), j);
             if rng.chance(1, 4) {
@@ -166,19 +199,7 @@ pub fn random_arrival(rng: &mut Rng, period: u64, sw: &ArrSwarm) -> ArrDesc {
             let inner = leaf_arrival(rng, period, kk);
             ArrDesc::Propagated(Box::new(inner), rng.range(0, period))
         }
-        7 => {
-            // two sources of roughly half the rate each
-            let ka = any_leaf(rng);
-            let a = leaf_arrival(rng, period * 2, ka);
-            let pb = period * 2 + rng.below(period + 1);
-            let kb = any_leaf(rng);
-            let b = leaf_arrival(rng, pb, kb);
-            match rng.below(3) {
-                0 => ArrDesc::Vec(vec![a, b]),
-                1 => ArrDesc::Slice(vec![a, b]),
-                _ => ArrDesc::SumOf(Box::new(a), Box::new(b)),
-            }
-        }
+        7 => superposition(rng, period),
         _ => {
             let kk = any_leaf(rng);
             ArrDesc::Rc(Box::new(leaf_arrival(rng, period, kk)))
